@@ -32,7 +32,9 @@ SETS = {
                   'template <typename T> struct Box { T v; Base* owner; };\n'
                   'struct D : public Base { Box<Leaf> b; other_t o; virtual void f(); };\n',
         "inc_a.h": '#include "inc_b.h"\nstruct Base { virtual ~Base(); Leaf l; };\n',
-        "inc_b.h": 'struct Leaf { float f; int arr[40]; };\n',
+        # > 16 KiB: libLLVM maps files of four pages or more instead of reading them
+        "inc_b.h": 'struct Leaf { float f; int arr[40]; };\n' + "".join(
+            f"/* padding line {i:05d} so that this header is large enough to be memory-mapped by libLLVM */\n" for i in range(400)),
         "inactive.h": 'struct Never { int z; };\n',
         "other.h": 'typedef unsigned long other_t;\n',
         "flags": ["--with-derive-hash", "--with-derive-partialeq", "--with-derive-eq", "--", "-x", "c++", "-std=c++14"],
